@@ -14,8 +14,10 @@ import (
 	"os"
 	"runtime/debug"
 	"sort"
+	"sync"
 	"sync/atomic"
 	"time"
+	"unsafe"
 )
 
 // Kind names a yield point.
@@ -51,6 +53,13 @@ const (
 	KClose
 	KAnnounce // internal: a writer took the RWMutex's writer slot and waits for readers
 	KHandoff  // harness: a value is handed from one task to another
+	KSpawn    // the library started a goroutine (go statement rewritten to core.Go)
+	KWGAdd
+	KWGWait
+	KCondEnq // sync.Cond.Wait: the caller joins the notify list (before unlocking L)
+	KCondWait
+	KCondSignal
+	KCondBroadcast
 	kindCount
 )
 
@@ -59,7 +68,7 @@ var kindNames = [...]string{
 	"lock", "unlock", "after-unlock", "mlock", "munlock", "trylock", "tryrlock",
 	"atomic-load", "atomic-store", "atomic-rmw", "after-store", "pool-get",
 	"pool-put", "read", "read-ret", "detector", "open", "close", "announce",
-	"handoff",
+	"handoff", "spawn", "wg-add", "wg-wait", "cond-enqueue", "cond-wait", "cond-signal", "cond-broadcast",
 }
 
 func (k Kind) String() string {
@@ -101,6 +110,8 @@ type Task struct {
 	inOp         bool
 	loadedNoLock bool // did an atomic load in this operation and has not taken a lock since
 	inRead       bool // is between reads of a caller-supplied reader
+	spawned      bool // started by the library (go statement), not by the plan
+	condTicket   int  // sync.Cond.Wait: ticket on the notify list (0: none)
 
 	// task-owned, read by the kernel only after join
 	panicMsg string
@@ -176,6 +187,48 @@ func (t *Task) PoolGet(pool any, name string) (any, bool) {
 func (t *Task) PoolPut(pool any, name string, x any) {
 	t.call(request{kind: KPoolPut, obj: pool, name: name, val: x})
 }
+
+// outstanding counts goroutines the library started while no simulation was
+// running (package initialisation, the reference process, the preliminary
+// Extend calls of a plan): they are real goroutines, and the next simulation
+// waits for them, so that nothing runs outside the baton during a run.
+var outstanding sync.WaitGroup
+
+// Go is what a go statement of the library is rewritten to. Inside a simulation
+// the new goroutine is a task of its own, scheduled like every other; the go
+// statement is a scheduling point and orders what the parent did before it.
+func Go(fn func()) {
+	t := Cur()
+	if t == nil {
+		outstanding.Add(1)
+		go func() {
+			defer outstanding.Done()
+			fn()
+		}()
+		return
+	}
+	tok := new(int64)
+	local := t.Local // the harness's context of the operation in flight is inherited
+	RaceReleaseMerge(unsafe.Pointer(tok))
+	t.call(request{kind: KSpawn, val: func(ct *Task) {
+		RaceAcquire(unsafe.Pointer(tok))
+		ct.Local = local
+		fn()
+	}})
+}
+
+// WaitOutstanding blocks until the goroutines started outside a simulation are done.
+func WaitOutstanding() { outstanding.Wait() }
+
+// WGAdd / WGWait / Cond* are the modelled halves of sync.WaitGroup and sync.Cond.
+func (t *Task) WGAdd(wg any, delta int) {
+	t.call(request{kind: KWGAdd, obj: wg, name: "waitgroup", arg: int64(delta)})
+}
+func (t *Task) WGWait(wg any)       { t.call(request{kind: KWGWait, obj: wg, name: "waitgroup"}) }
+func (t *Task) CondEnqueue(c any)   { t.call(request{kind: KCondEnq, obj: c, name: "cond"}) }
+func (t *Task) CondWait(c any)      { t.call(request{kind: KCondWait, obj: c, name: "cond"}) }
+func (t *Task) CondSignal(c any)    { t.call(request{kind: KCondSignal, obj: c, name: "cond"}) }
+func (t *Task) CondBroadcast(c any) { t.call(request{kind: KCondBroadcast, obj: c, name: "cond"}) }
 
 // OpInvoke / OpReturn stamp the history of public API calls.
 func (t *Task) OpInvoke(op int, tag string) {
@@ -288,6 +341,24 @@ type Kernel struct {
 	csig      uint64
 	insideRL  int // tasks currently holding a read lock (for probes)
 	detParked int
+
+	wgs   map[any]int        // modelled WaitGroup counters
+	conds map[any]*condState // modelled sync.Cond notify lists
+}
+
+type condState struct {
+	next     int   // next ticket
+	waiting  []int // tickets on the notify list, oldest first
+	signaled map[int]bool
+}
+
+func (k *Kernel) cond(obj any) *condState {
+	c := k.conds[obj]
+	if c == nil {
+		c = &condState{next: 1, signaled: map[int]bool{}}
+		k.conds[obj] = c
+	}
+	return c
 }
 
 // NewKernel returns a kernel.
@@ -372,6 +443,10 @@ func (k *Kernel) grantable(t *Task) bool {
 		return ls.readers == 0
 	case KMLock:
 		return k.lock(r).mOwner == nil
+	case KWGWait:
+		return k.wgs[r.obj] <= 0
+	case KCondWait:
+		return k.cond(r.obj).signaled[t.condTicket]
 	}
 	return true
 }
@@ -400,10 +475,14 @@ func (k *Kernel) apply(t *Task) (resume bool, rep reply) {
 				k.probe("lookup_while_extend_in_flight")
 			}
 		}
-		k.stamp(&k.out.Invoke[t.ID], int(r.arg), k.logEvent(t, r.kind, "", r.arg))
+		if t.ID < len(k.out.Invoke) {
+			k.stamp(&k.out.Invoke[t.ID], int(r.arg), k.logEvent(t, r.kind, "", r.arg))
+		}
 	case KOpReturn:
 		t.inOp, t.loadedNoLock, t.inRead = false, false, false
-		k.stamp(&k.out.Return[t.ID], int(r.arg), k.logEvent(t, r.kind, "", r.arg))
+		if t.ID < len(k.out.Return) {
+			k.stamp(&k.out.Return[t.ID], int(r.arg), k.logEvent(t, r.kind, "", r.arg))
+		}
 	case KRLock:
 		ls := k.lock(r)
 		if t.granted {
@@ -561,6 +640,42 @@ func (k *Kernel) apply(t *Task) (resume bool, rep reply) {
 			t.inRead = true
 		}
 		k.logEvent(t, r.kind, name, r.arg)
+	case KSpawn:
+		nt := k.newTask(r.val.(func(*Task)))
+		nt.spawned = true
+		k.prio = append(k.prio, 1+k.rng.Intn(len(k.prio)+1))
+		k.probe("library_goroutine_started")
+		k.logEvent(t, r.kind, "", int64(nt.ID))
+	case KWGAdd:
+		k.wgs[r.obj] += int(r.arg)
+		k.logEvent(t, r.kind, name, int64(k.wgs[r.obj]))
+	case KWGWait:
+		k.logEvent(t, r.kind, name, 0)
+	case KCondEnq:
+		c := k.cond(r.obj)
+		t.condTicket = c.next
+		c.next++
+		c.waiting = append(c.waiting, t.condTicket)
+		k.logEvent(t, r.kind, name, int64(t.condTicket))
+	case KCondWait:
+		c := k.cond(r.obj)
+		delete(c.signaled, t.condTicket)
+		t.condTicket = 0
+		k.logEvent(t, r.kind, name, 0)
+	case KCondSignal:
+		c := k.cond(r.obj)
+		if len(c.waiting) > 0 {
+			c.signaled[c.waiting[0]] = true
+			c.waiting = c.waiting[1:]
+		}
+		k.logEvent(t, r.kind, name, int64(len(c.waiting)))
+	case KCondBroadcast:
+		c := k.cond(r.obj)
+		for _, tk := range c.waiting {
+			c.signaled[tk] = true
+		}
+		c.waiting = nil
+		k.logEvent(t, r.kind, name, 0)
 	default:
 		k.logEvent(t, r.kind, name, r.arg)
 	}
@@ -708,6 +823,32 @@ func (k *Kernel) chooseTask(rs []*Task) *Task {
 	}
 }
 
+// newTask creates a parked task whose first request (start) is pending.
+// Kernel goroutine only.
+func (k *Kernel) newTask(body func(t *Task)) *Task {
+	t := &Task{ID: len(k.tasks), k: k, resume: make(chan reply), fin: make(chan struct{})}
+	t.pend, t.hasPend = request{t: t, kind: KStart}, true
+	k.tasks = append(k.tasks, t)
+	go func() {
+		raceDisable()
+		<-t.resume
+		raceEnable()
+		kind := KFinish
+		defer func() {
+			if r := recover(); r != nil {
+				t.panicMsg = fmt.Sprintf("%v\n%s", r, debug.Stack())
+				kind = KPanic
+			}
+			raceDisable()
+			k.req <- request{t: t, kind: kind}
+			raceEnable()
+			close(t.fin)
+		}()
+		body(t)
+	}()
+	return t
+}
+
 // Run executes one simulation to completion (or failure).
 func (k *Kernel) Run(spec *RunSpec) *Outcome {
 	n := len(spec.Bodies)
@@ -716,6 +857,8 @@ func (k *Kernel) Run(spec *RunSpec) *Outcome {
 	k.rng = NewRand(spec.Seed)
 	k.locks = map[any]*lockState{}
 	k.pools = map[any]*poolState{}
+	k.wgs = map[any]int{}
+	k.conds = map[any]*condState{}
 	k.names = map[any]string{}
 	k.nameCount = map[string]int{}
 	k.tasks = nil
@@ -740,32 +883,15 @@ func (k *Kernel) Run(spec *RunSpec) *Outcome {
 			k.changeAt[1+k.rng.Intn(h)] = true
 		}
 	}
+	WaitOutstanding()
 	races0 := RaceErrors()
 
 	for i := 0; i < n; i++ {
-		t := &Task{ID: i, k: k, resume: make(chan reply), fin: make(chan struct{})}
-		t.pend, t.hasPend = request{t: t, kind: KStart}, true
-		k.tasks = append(k.tasks, t)
-		body := spec.Bodies[i]
-		go func() {
-			raceDisable()
-			<-t.resume
-			raceEnable()
-			kind := KFinish
-			defer func() {
-				if r := recover(); r != nil {
-					t.panicMsg = fmt.Sprintf("%v\n%s", r, debug.Stack())
-					kind = KPanic
-				}
-				raceDisable()
-				k.req <- request{t: t, kind: kind}
-				raceEnable()
-				close(t.fin)
-			}()
-			body(t)
-		}()
+		k.newTask(spec.Bodies[i])
 	}
 
+	graceFrom := 0
+	started := time.Now()
 	for {
 		Tick()
 		rs := k.runnable()
@@ -774,10 +900,14 @@ func (k *Kernel) Run(spec *RunSpec) *Outcome {
 			var blocked []string
 			for _, t := range k.tasks {
 				if !t.finished {
-					unfinished++
+					if !t.spawned {
+						unfinished++
+					}
 					blocked = append(blocked, fmt.Sprintf("t%d:%s(%s)", t.ID, t.pend.kind, k.objName(t.pend)))
 				}
 			}
+			// goroutines the library started itself may legitimately wait for ever (a
+			// worker parked on a condition variable); only callers that cannot return count
 			if unfinished > 0 {
 				sort.Strings(blocked)
 				k.fail("deadlock", fmt.Sprintf("no runnable task; blocked: %v", blocked))
@@ -787,6 +917,26 @@ func (k *Kernel) Run(spec *RunSpec) *Outcome {
 		if k.step >= spec.MaxSteps {
 			k.fail("budget", fmt.Sprintf("step budget %d exhausted", spec.MaxSteps))
 			break
+		}
+		if k.step%4096 == 0 && time.Since(started) > 4*time.Minute {
+			// an inconclusive run, not a verdict: no simulated run is meant to take this long
+			k.fail("budget", fmt.Sprintf("wall-clock budget exhausted after %d steps", k.step))
+			break
+		}
+		// every caller has returned and only goroutines of the library's own keep
+		// going (a background worker): give them a while, then end the run
+		callersDone := true
+		for _, t := range k.tasks {
+			callersDone = callersDone && (t.finished || t.spawned)
+		}
+		if callersDone {
+			if graceFrom == 0 {
+				graceFrom = k.step
+			}
+			if k.step-graceFrom > 2000 {
+				k.probe("library_goroutine_outlived_the_run")
+				break
+			}
 		}
 		if out.Class != "" {
 			break
